@@ -179,7 +179,7 @@ def finish(prop, meta, tier, seed, report, t0, replay_mode=False):
                 "floors": {k: {"required": v[0], "seen": v[1]} for k, v in report["floors"].items()},
                 "known_findings": {k["id"]: len(suppressed.get(k["id"], [])) + (1 if report["pinned"].get(k["id"]) else 0)
                                    for k in known},
-                "notes": report["notes"],
+                "notes": list(dict.fromkeys(report["notes"])),
             },
             "assumptions": meta["assumptions"],
             "wall_s": round(time.time() - t0, 2),
